@@ -44,13 +44,62 @@ def check(ctx):
     w = pd.methods.get('write_file_to_output')
     if w is None:
         raise AnalysisError('PathDumper.write_file_to_output not found')
-    copies = [n for n in own_nodes(w.node) if isinstance(n, ast.Call) and res.external_name(n) in
-              ('shutil.copy', 'shutil.copyfile', 'shutil.copy2', 'shutil.move', 'os.rename', 'os.replace')]
-    facts = Facts(w, include_nested=False)
-    ok = len(copies) == 1 and pseudo(copies[0].args[0]) == w.params[1] and w.params[2] in facts.roots(copies[0].args[1]) \
-        and 'self.out_path' in facts.roots(copies[0].args[1])
-    run.check(ok, 'R15', w.where, w.qualname, 'shutil.copy(filename, join(out_path, path))',
-              'the finished temp file is not copied to <out_path>/<path>')
+    run.rule('PLACE', 'PLACEMENT: PathDumper.write_file_to_output puts the finished temp file at its final name '
+                      'join(out_path, path) before it returns (the only other exit is the existing-hashed-file shortcut), and no other '
+                      'method of the dumper copies, moves or renames files: what the descriptor lists is in place when the '
+                      'descriptor - handled last - is placed')
+    from sa.pathvals import PathValues, subst
+    from sa.paths import RAISE, Enumerator, Path
+    from sa.pattern import match_expr
+    PLACERS = ('shutil.copy', 'shutil.copyfile', 'shutil.copy2', 'shutil.move', 'os.rename', 'os.replace')
+    wn = ctx.N(w)
+    src_p, dst_p = w.params[1], w.params[2]
+    final = 'os.path.join(self.out_path, %s)' % dst_p
+    n_paths = 0
+    for p in Enumerator(where=w.qualname).paths(wn.node.body):
+        if p.term == RAISE:
+            continue
+        # replay the path: value of each placing call's arguments at that point
+        placed = []
+        items = []
+        for it in p.items:
+            items.append(it)
+            if it.kind in ('stmt', 'return'):
+                for c in ast.walk(it.node):
+                    if isinstance(c, ast.Call) and res.external_name(c) in PLACERS and len(c.args) >= 2:
+                        pv = PathValues(Path(items[:-1]))
+                        placed.append((subst(c.args[0], pv.env), subst(c.args[1], pv.env), c))
+        pv = PathValues(p)
+        shortcut = any(pol and any(isinstance(c, ast.Call) and u(c.func) == 'os.path.exists' for c in ast.walk(t))
+                       for t, pol in pv.guards)
+        n_paths += 1
+        if shortcut and not placed:
+            # existing file under a content-addressed name: nothing to place
+            ok = any(pol and 'self.add_filehash_to_path' in u(t) for t, pol in pv.guards)
+            run.check(ok, 'PLACE', w.where, w.qualname, 'skip only for a content-addressed existing file',
+                      'an existing file is kept although its name does not identify its content')
+            continue
+        ok = bool(placed)
+        if ok:
+            prev_dst = None
+            for s_, d_, c in placed:
+                ok = ok and (u(s_) == src_p or (prev_dst is not None and u(s_) == prev_dst))
+                prev_dst = u(d_)
+            ok = ok and match_expr(final, placed[-1][1]) is not None
+        run.check(ok, 'PLACE', w.where, w.qualname, 'placement on path: ' + ' & '.join(('' if pol else 'not ') + u(t) for t, pol in pv.guards),
+                  'write_file_to_output can return without the finished file being at <out_path>/<path> (staged under another '
+                  'name, or not copied at all)')
+    run.floor('PLACE', n_paths, 2, 'paths through write_file_to_output')
+    for c_ in [pd] + list(res.subclasses(pd, strict=True)):
+        for m in c_.methods.values():
+            if m.name == w.name:
+                continue
+            for c in ast.walk(m.node):
+                if isinstance(c, ast.Call) and res.external_name(c) in PLACERS:
+                    run.fail('PLACE', where(repo, c), m.qualname, c,
+                             'files are moved / copied outside write_file_to_output: the order "data files, then descriptor" is '
+                             'decided there and nowhere else')
+    run.ok('PLACE', w.where, 'no placing call outside write_file_to_output')
     run.trusted += ['LF6', 'the pipeline driver exhausts streams in order (checked by C01/C05 R3)']
     run.not_decided += ['atomicity of shutil.copy (a torn datapackage.json is unparseable, which the property excludes)',
                         'a downstream user step that abandons a resource']
